@@ -85,6 +85,9 @@ func mutantsOf(fset *token.FileSet, f *ast.File, src []byte) []edit {
 		}
 		name := funcName(fd)
 		add := func(n ast.Node, s, e int, repl, op string) {
+			if string(src[s:e]) == repl {
+				return // not a change
+			}
 			out = append(out, edit{s, e, repl, op, name, fset.Position(n.Pos()).Line})
 		}
 		skipLit := map[*ast.BasicLit]bool{}
